@@ -644,6 +644,29 @@ impl<'a> Gen<'a> {
         }
     }
 
+    /// Prime the cache with an honest call, then answer one request of a second call with ANOTHER
+    /// valid honest certificate (one from higher up sends a verifier that follows cached links
+    /// round in circles, one from lower down makes it skip part of the chain).
+    fn move_cached_link_swap(&mut self) {
+        let start = self.pick_honest_start();
+        let path = self.path(start);
+        if path.len() < 3 {
+            return self.move_honest();
+        }
+        self.push_call(Subject::Client, start, vec![], "honest (before swap)");
+        let pos = self.rng.range(1, path.len() as u64 - 1) as usize;
+        let other = loop {
+            let q = self.rng.index(path.len());
+            if q != pos {
+                break q;
+            }
+        };
+        let kind = if other < pos { "swap_cached_link_for_descendant" } else { "swap_cached_link_for_ancestor" };
+        let lies = vec![lie(path[pos], Answer::Serve(path[other]), kind)];
+        let again = if self.rng.chance(0.7) { start } else { self.pick_honest_start() };
+        self.push_call(Subject::Client, again, lies, &format!("swap: request@{pos} answered with honest@{other}"));
+    }
+
     /// A chain that is internally consistent but anchored in the adversary's own genesis key, or in
     /// a doctored copy of the honest genesis certificate.
     fn move_adversarial_genesis(&mut self) {
@@ -776,14 +799,19 @@ pub fn generate<'r>(chain_rng: &'r mut Rng, rng: &'r mut Rng) -> (Scenario, Work
             g.move_honest();
             continue;
         }
-        match g.rng.weighted(&[22, 16, 20, 10, 20, 6, 6]) {
+        match g.rng.weighted(&[22, 16, 20, 10, 20, 6, 6, 5]) {
             0 => g.move_honest(),
             1 => g.move_point_lies(),
             2 => g.move_cascade_fork(None),
-            3 => g.move_cascade_fork(Some("following_epoch")),
+            3 => {
+                // targeted at the epoch rule: links to the following epoch, or across a gap
+                let flavour = if g.rng.chance(0.7) { "following_epoch" } else { "far" };
+                g.move_cascade_fork(Some(flavour))
+            }
             4 => g.move_graft(),
             5 => g.move_adversarial_genesis(),
-            _ => g.move_rule_switch(),
+            6 => g.move_rule_switch(),
+            _ => g.move_cached_link_swap(),
         }
     }
     let sc = Scenario {
